@@ -33,6 +33,13 @@ EXTRA = {  # seeds that also violate a neighbouring property's statement
     'C16_r4_collab_pls_fabc_raw_method_string': ['C17'],
     'C17_r4_collab_pls_2d_drops_lowercasing': ['C16'],
     'C01_r4_yx_arrays_casts_generated_x_data_to_float64': ['C16'],
+    'C01_r5_extrapolate2d_row_col_padding_mixup': ['C18'],
+    'C18_r5_pad_edges2d_numpy_pair_pad_width': ['C01'],
+    'C07_r5_pspline_smooth_sorts_xy_not_weights': ['C02'],
+    'C02_r5_get_function_sorts_x_again': ['C17'],
+    'C12_r5_make_btwb_2d_uniform_weight_shortcut': ['C07'],
+    'C19_r5_loess_kernels_cached_across_calls': ['C03'],
+    'C03_r5_extended_range_fitter_reused_by_added_count': ['C17'],
 }
 
 
